@@ -181,12 +181,19 @@ func VerifC10Marker() {
 	xid, branchID := vrt.String("xid", 2), int64(1+vrt.Choice("branch", 2))
 	w := uSetup(s, &undo.BranchUndoLog{Xid: xid, BranchID: uint64(branchID), Logs: []undo.SQLUndoLog{log}}, xid, branchID)
 	w.d.rows = uRowsOf(b)
-	// no undo log yet: the rollback arrives first
+	// no undo log yet: the rollback arrives first - once or repeatedly
 	st, err, panicked := w.rollback()
 	vrt.Reach("c10/marker")
 	vrt.Assert(!panicked && err == nil && st == branch.BranchStatusPhasetwoRollbacked, "c10/early-rollback-answers-rollbacked")
 	vrt.Assert(w.d.undoLogPresent(xid, branchID), "c10/early-rollback-leaves-a-marker")
 	vrt.Assert(w.d.openTx == 0, "c10/early-rollback-leaves-no-open-transaction")
+	for k := vrt.Choice("early.repeats", vrt.Param("maxrepeats", 3)); k > 0; k-- {
+		vrt.Reach("c10/marker-redelivery")
+		st, err, panicked = w.rollback()
+		vrt.Assert(!panicked && err == nil && st == branch.BranchStatusPhasetwoRollbacked, "c10/repeated-early-rollback-answers-rollbacked")
+		vrt.Assert(w.d.undoLogPresent(xid, branchID), "c10/repeated-early-rollback-keeps-the-marker")
+		vrt.Assert(w.d.openTx == 0, "c10/repeated-early-rollback-leaves-no-open-transaction")
+	}
 	// late phase one: business write and undo-log flush in one local transaction
 	conn, _ := uConnector{w.d}.Connect(nil)
 	tx, _ := conn.(*uConn).Begin()
